@@ -44,7 +44,7 @@ class Spec(pipeprops.PropSpec):
             "related; non-trivial = some class with >= 2 instances and some non-typing triple")
 
     def gen_cases(self, tier, rnd):
-        n = 9000 if tier == "thorough" else 540
+        n = 27000 if tier == "thorough" else 1800
         cases = []
         for i in range(n):
             r = random.Random(rnd.getrandbits(48))
@@ -53,9 +53,31 @@ class Spec(pipeprops.PropSpec):
             opt = OPTIONS[i % len(OPTIONS)]
             a, b = flip(opt, cfg, r)
             cases.append({"runs": [(ts, a), (ts, b)], "meta": {"option": opt}})
+        # output file vs string on outputs that cross the serializer's 5000-line buffer once / twice
+        for nclasses in ([900] if tier != "thorough" else [700, 900, 1800]):
+            e = "http://ex.org/"
+            ts = []
+            for i in range(nclasses):
+                n = ("I", e + "n%d" % i)
+                ts.append((n, pipe.RDF_TYPE, ("I", e + "K%d" % i)))
+                ts.append((n, e + "p", ("L", "v", pipe.XSD + "string")))
+                ts.append((n, e + "q", ("I", e + "n%d" % ((i + 1) % nclasses))))
+            cfg = pipe.base_cfg()
+            cases.append({"runs": [(ts, cfg), (ts, cfg, "shexc_file")], "meta": {"option": "sink", "classes": nclasses}})
         return cases
 
     def oracle(self, case, impl):
+        if case["meta"]["option"] == "sink":
+            fails = []
+            if impl[0][0] != "ok" or impl[1][0] != "ok":
+                return [(None, "big extraction failed: %r" % ([r[:2] for r in impl if r[0] != "ok"],))], 1
+            if impl[0][1] != impl[1][1]:
+                fails.append((None, "file output differs from string output (%d vs %d characters)" % (
+                    len(impl[1][1]), len(impl[0][1]))))
+            n = len(pipe.canon(impl[0][1])["shapes"])
+            if n != case["meta"]["classes"]:
+                fails.append((None, "string output holds %d shapes for %d classes" % (n, case["meta"]["classes"])))
+            return fails, 1
         if any(r[0] != "ok" for r in impl):
             return [], 0
         (ts, a), (_, b) = case["runs"][0][:2], case["runs"][1][:2]
